@@ -835,6 +835,9 @@ func envOf(op Op) string {
 
 func (w *worldA) doSpan(op Op) {
 	idx := int(op.I)
+	// (under the model's lock: operations that offer several spans in one step
+	// run while a worker may already be reporting the first of them)
+	w.mu.Lock()
 	tm := w.byIdx[idx]
 	if tm == nil {
 		id := traceIDFor(w.p.Seed, idx)
@@ -846,14 +849,17 @@ func (w *worldA) doSpan(op Op) {
 		client: uint(op.M & 0xffffffff), fromPeer: op.B, offered: time.Now().Sub(w.start)}
 	w.spans[sr.spanID] = sr
 	tm.offered = append(tm.offered, sr)
+	w.mu.Unlock()
 	sp := w.mkSpan(sr)
 	sr.size = sp.GetDataSize()
 	// the model queue must be updated before the worker can possibly pick the span up
+	w.mu.Lock()
 	if op.B {
 		w.qPeer[tm.worker] = append(w.qPeer[tm.worker], sr)
 	} else {
 		w.qIn[tm.worker] = append(w.qIn[tm.worker], sr)
 	}
+	w.mu.Unlock()
 	var err error
 	if op.B {
 		err = w.coll.AddSpanFromPeer(sp)
@@ -862,6 +868,8 @@ func (w *worldA) doSpan(op Op) {
 	}
 	if err != nil {
 		// refused: take it back out of the model queue (it is the last element)
+		w.mu.Lock()
+		defer w.mu.Unlock()
 		if op.B {
 			q := w.qPeer[tm.worker]
 			w.qPeer[tm.worker] = q[:len(q)-1]
